@@ -208,7 +208,7 @@ def all_items():
     ms = [m for m in modem_specs(max_order=tier(16, 64)) if m["name"] != "Identity" and m["name"] != "BPSK(real)"]
     if TIER == "quick":
         keep = {"BPSK", "QPSK(normalize=True)", "PSK8(gray=True)", "QAM16(gray=True,normalize=True)", "PAM4(gray=True,normalize=True)", "PAM8(gray=False,normalize=False)",
-                "DPSK4(gray=False)", "DBPSK", "OQPSK(normalize=True)", "Pi4QPSK(gray_coded=False)", "QAM4(gray=True,normalize=True)", "PSK4(gray=True)"}
+                "DPSK4(gray=False)", "DBPSK", "OQPSK(normalize=True)", "Pi4QPSK(gray_coded=False)", "QAM4(gray=True,normalize=True)", "PSK4(gray=True)", "PAM2(gray=False,normalize=True)", "PAM4(gray=False,normalize=False)", "PSK8(gray=False)", "QAM16(gray=False,normalize=False)"}
         ms = [m for m in ms if m["name"] in keep]
     for m in ms:
         for nv in (1e-3, 1.0, 1e3) if TIER == "thorough" else (1.0,):
